@@ -156,10 +156,28 @@ static int spec_str_eq(const char *a, const char *b)
 	}
 	return 1;
 }
+#define STR_SAME(stored, given) spec_str_eq((stored), (given))
+#define CSTR_OK(s) STR_OK(s)
+#define CMP_PRE 1
+#define CMP_ASKED(cond, stored, given) 1
 #else
+/* unbounded groups: the given title/label is never read (snprintf formatting is dropped by the
+ * prelude, non-literal strcmp is an oracle); chan_type is a string of any length */
 #define STR_OK(s) ((s) != NULL)
 #define STORED_OK(a) 1
 #define spec_str_eq(a, b) 1
+unsigned long g_cslen;
+#define CSTR_OK(s) (g_cslen < (1UL << 20) && __CPROVER_is_fresh((s), g_cslen + 1) && (s)[g_cslen] == '\0')
+#ifdef C17_ORACLE
+#define STR_SAME(stored, given) (g_cmp_result == 0)
+#define CMP_PRE (g_cmp.n == 0)
+/* the oracle was asked exactly once, about (stored, given), iff cond */
+#define CMP_ASKED(cond, stored, given) ((cond) ? (g_cmp.n == 1 && g_cmp.a == (const char *) (stored) && g_cmp.b == (const char *) (given)) : g_cmp.n == 0)
+#else
+#define STR_SAME(stored, given) 1
+#define CMP_PRE 1
+#define CMP_ASKED(cond, stored, given) 1
+#endif
 #endif
 
 long w_ntypes; int w_ctype;
@@ -228,13 +246,14 @@ WITNESS(add_label);
 int c_add_label(struct mark_type *t, int64_t value, const char *label)
 __CPROVER_requires(__CPROVER_is_fresh(t, sizeof(*t)) && t == g_fl_t && value == g_fl_key && STR_OK(label))
 __CPROVER_requires(g_fl == NULL || (__CPROVER_is_fresh(g_fl, sizeof(struct mark_label)) && g_fl->value == value && STORED_OK(g_fl->label)))
-__CPROVER_requires(g_fl == NULL || g_same == spec_str_eq(g_fl->label, label))
-__CPROVER_requires(DIAG_PRE && LOW_PRE && HLOG_PRE && g_findl_calls == 0)
+__CPROVER_requires(g_fl == NULL || g_same == STR_SAME(g_fl->label, label))
+__CPROVER_requires(DIAG_PRE && LOW_PRE && HLOG_PRE && g_findl_calls == 0 && CMP_PRE)
 __CPROVER_requires(WBIND(add_label, w_defined == (g_fl != NULL) && w_lvalue == value && W_STR(w_new, label) && (g_fl == NULL || W_STR(w_old, g_fl->label))))
-__CPROVER_assigns(t->labels, g_findl_calls, HLOG_FRAME, CALLOC_FRAME, DIAG_FRAME)
+__CPROVER_assigns(t->labels, g_findl_calls, HLOG_FRAME, CALLOC_FRAME, DIAG_FRAME CMP_FRAME)
 __CPROVER_ensures(RV == 0 || RV == -1)
 /* value already labelled: accepted iff the labels agree, and nothing is added */
 __CPROVER_ensures(g_fl == NULL || ((RV == 0) == (g_same != 0) && g_hl.n == OLD(g_hl.n) && t->labels == OLD(t->labels) && g_lowfail == OLD(g_lowfail)))
+__CPROVER_ensures(CMP_ASKED(g_fl != NULL, g_fl->label, label))
 /* new value: added (unless calloc fails / label longer than a PCF label) with that value and label */
 __CPROVER_ensures(g_fl != NULL || (RV == 0) == (g_lowfail == OLD(g_lowfail)))
 __CPROVER_ensures(g_fl != NULL || RV != 0 || (g_hl.n == OLD(g_hl.n) + 1 && g_hl.head == (void *) &t->labels &&
@@ -326,25 +345,25 @@ int c_parse_mark(struct ovni_mark_emu *m, const char *typestr, JSON_Value *markv
 __CPROVER_requires(__CPROVER_is_fresh(m, sizeof(*m)) && m == g_fm_m && m->ntypes >= 0 && m->ntypes < C17_MAX_TYPES)
 __CPROVER_requires(g_tslen < (1UL << 20) && __CPROVER_is_fresh(typestr, g_tslen + 1) && typestr[g_tslen] == '\0' && g_st_endoff <= g_tslen)
 __CPROVER_requires(markval == g_j_markval)
-__CPROVER_requires((g_j_title == NULL || STR_OK(g_j_title)) && (g_j_ctype == NULL || STR_OK(g_j_ctype)))
+__CPROVER_requires((g_j_title == NULL || STR_OK(g_j_title)) && (g_j_ctype == NULL || CSTR_OK(g_j_ctype)))
 /* the type table observed at the parsed number; table invariant */
 __CPROVER_requires(g_mt_key == g_st_val)
 __CPROVER_requires(g_mt == NULL || (__CPROVER_is_fresh(g_mt, sizeof(struct mark_type)) && g_mt->type == g_mt_key &&
 	g_mt->index >= 0 && g_mt->index < m->ntypes && STORED_OK(g_mt->title) &&
 	(g_mt->ctype == CHAN_SINGLE || g_mt->ctype == CHAN_STACK)))
-__CPROVER_requires(DIAG_PRE && LOW_PRE && HLOG_PRE && g_find_calls == 0 && g_pl.n == 0 && g_j_bad == 0 && g_st_calls == 0)
+__CPROVER_requires(DIAG_PRE && LOW_PRE && HLOG_PRE && g_find_calls == 0 && g_pl.n == 0 && g_j_bad == 0 && g_st_calls == 0 && CMP_PRE)
 /* syntactically acceptable definition */
 __CPROVER_requires(g_pre == (g_st_errno == 0 && g_st_endoff != 0 && typestr[g_st_endoff] == '\0' &&
 	g_st_val >= 0 && g_st_val < 100 &&
 	g_j_mark != NULL && g_j_title != NULL && g_j_ctype != NULL && (CT_SINGLE(g_j_ctype) || CT_STACK(g_j_ctype))))
 /* ... that agrees with what another thread defined for the same type, if any */
-__CPROVER_requires(!g_pre || g_agree == (g_mt == NULL || (spec_str_eq(g_mt->title, g_j_title) && g_mt->ctype == CT_OF(g_j_ctype))))
+__CPROVER_requires(!g_pre || g_agree == (g_mt == NULL || (STR_SAME(g_mt->title, g_j_title) && g_mt->ctype == CT_OF(g_j_ctype))))
 __CPROVER_requires(WBIND(parse_mark, w_pre == g_pre && w_agree == g_agree && w_defined == (g_mt != NULL) && w_val == g_st_val &&
 	w_endoff == g_st_endoff && w_errno == g_st_errno && w_has_labels == g_j_has_labels && w_labels_null == (g_j_labels == NULL) &&
 	w_title_null == (g_j_title == NULL) && w_ctype_null == (g_j_ctype == NULL) && w_mark_null == (g_j_mark == NULL) &&
 	(g_j_ctype == NULL || (w_ct_single == CT_SINGLE(g_j_ctype) && w_ct_stack == CT_STACK(g_j_ctype))) &&
-	(g_mt == NULL || (w_old_ctype == (int) g_mt->ctype && (g_j_title == NULL || w_title_eq == spec_str_eq(g_mt->title, g_j_title))))))
-__CPROVER_assigns(m->types, m->ntypes, g_find_calls, g_pl, g_j_bad, g_st_calls, g_st_arg, __CPROVER_errno, HLOG_FRAME, CALLOC_FRAME, DIAG_FRAME)
+	(g_mt == NULL || (w_old_ctype == (int) g_mt->ctype && (g_j_title == NULL || w_title_eq == STR_SAME(g_mt->title, g_j_title))))))
+__CPROVER_assigns(m->types, m->ntypes, g_find_calls, g_pl, g_j_bad, g_st_calls, g_st_arg, __CPROVER_errno, HLOG_FRAME, CALLOC_FRAME, DIAG_FRAME CMP_FRAME)
 __CPROVER_ensures(RV == 0 || RV == -1)
 /* accepted exactly when acceptable, agreeing, and no lower layer failed */
 __CPROVER_ensures((RV == 0) == (g_pre && g_agree && g_lowfail == OLD(g_lowfail) &&
@@ -361,6 +380,8 @@ __CPROVER_ensures(!(g_mt == NULL && g_pre && g_lowfail == OLD(g_lowfail)) || (
 	HL_TYPE->ctype == CT_OF(g_j_ctype) && spec_str_eq(HL_TYPE->title, g_j_title)))
 /* an unacceptable definition changes nothing and looks nothing up */
 __CPROVER_ensures(g_pre || (m->ntypes == OLD(m->ntypes) && m->types == OLD(m->types) && g_hl.n == OLD(g_hl.n) && g_find_calls == 0))
+/* the stored title is compared with the given one exactly for an acceptable redefinition */
+__CPROVER_ensures(CMP_ASKED(g_pre && g_mt != NULL, g_mt->title, g_j_title))
 /* parson / strtol used on the definition under parse only */
 __CPROVER_ensures(g_j_bad == 0 && g_st_calls == 1 && g_st_arg == typestr)
 __CPROVER_ensures(RV == 0 || g_err > OLD(g_err))
@@ -385,4 +406,149 @@ void h_parse_mark(void)
 	if (r != 0 && !w_mark_null && !w_title_null && !w_ctype_null && !w_ct_single && !w_ct_stack && w_val == 3 && w_errno == 0 && w_endoff != 0) REACH("unknown chan_type refused");
 	if (r != 0 && w_title_null && !w_mark_null) REACH("missing title refused");
 	if (r != 0 && w_pre && w_agree && w_has_labels && !w_labels_null) REACH("refused by parse_labels");
+}
+
+/* =====================================================================================
+ * 2d. parse_number, parse_labels, scan_thread: the glue between one thread's metadata
+ *     ("ovni.mark": {"<type>": {title, chan_type, labels: {"<value>": "<label>"}}}) and
+ *     parse_mark / add_label.  Loops over JSON object entries: bounded stand-in, <= 2 entries.
+ * parson: ghost view of ONE JSON object as an array of (name, value) entries (g_ja);
+ * strtoll: abstract libc stub like strtol above.
+ * ===================================================================================== */
+long long g_sll_val; unsigned long g_sll_endoff; int g_sll_errno; unsigned g_sll_calls;
+long long strtoll(const char *s, char **end, int base)
+{
+	g_sll_calls++;
+	if (base != 10 || end == NULL) g_j_bad++;
+	if (end != NULL) *end = (char *) s + g_sll_endoff;
+	if (g_sll_errno != 0) errno = g_sll_errno;
+	return g_sll_val;
+}
+WITNESS(parse_number);
+int c_parse_number(const char *str, int64_t *result)
+__CPROVER_requires(g_tslen < (1UL << 20) && __CPROVER_is_fresh(str, g_tslen + 1) && str[g_tslen] == '\0' && g_sll_endoff <= g_tslen)
+__CPROVER_requires(__CPROVER_is_fresh(result, sizeof(*result)) && DIAG_PRE && g_sll_calls == 0 && g_j_bad == 0)
+__CPROVER_requires(g_pre == (g_sll_errno == 0 && g_sll_endoff != 0 && str[g_sll_endoff] == '\0'))
+__CPROVER_requires(WBIND(parse_number, w_pre == g_pre && w_errno == g_sll_errno && w_endoff == g_sll_endoff))
+__CPROVER_assigns(*result, g_sll_calls, g_j_bad, __CPROVER_errno, DIAG_FRAME)
+/* accepted exactly when the whole non-empty string is a number in range */
+__CPROVER_ensures((RV == 0) == (g_pre != 0) && (RV == 0 || RV == -1))
+__CPROVER_ensures(RV != 0 || *result == g_sll_val)
+__CPROVER_ensures(RV == 0 || (*result == OLD(*result) && g_err > OLD(g_err)))
+__CPROVER_ensures(g_sll_calls == 1 && g_j_bad == 0)
+;
+void h_parse_number(void)
+{
+	const char *str; int64_t *result;
+	WITNESS_ON(parse_number);
+	int r = parse_number(str, result);
+	if (r == 0) REACH("number accepted");
+	if (r != 0 && w_errno != 0) REACH("out of range refused");
+	if (r != 0 && w_errno == 0 && w_endoff == 0) REACH("no digits refused");
+	if (r != 0 && w_errno == 0 && w_endoff != 0) REACH("trailing characters refused");
+}
+
+/* ---- JSON object as an array of entries ---- */
+struct c17_ja { const JSON_Object *obj; size_t n; const char *name[2]; JSON_Value *val[2]; const char *str[2]; } g_ja;
+size_t json_object_get_count(const JSON_Object *o) { if (o != g_ja.obj) g_j_bad++; return g_ja.n; }
+const char *json_object_get_name(const JSON_Object *o, size_t i) { if (o != g_ja.obj || i >= g_ja.n) { g_j_bad++; return NULL; } return g_ja.name[i]; }
+JSON_Value *json_object_get_value_at(const JSON_Object *o, size_t i) { if (o != g_ja.obj || i >= g_ja.n) { g_j_bad++; return NULL; } return g_ja.val[i]; }
+const char *json_value_get_string(const JSON_Value *v)
+{
+	if (v != NULL && v == g_ja.val[0]) return g_ja.str[0];
+	if (v != NULL && v == g_ja.val[1]) return g_ja.str[1];
+	g_j_bad++;
+	return NULL;
+}
+const struct thread *g_js_thread; JSON_Object *g_js_obj;
+JSON_Object *json_object_dotget_object(const JSON_Object *o, const char *name)
+{
+	if (g_js_thread == NULL || o != (const JSON_Object *) g_js_thread->meta || strcmp(name, "ovni.mark") != 0) g_j_bad++;
+	return g_js_obj;
+}
+
+/* callees replaced by call logs (args, result): each is proved exactly in its own group */
+struct c17_clog g_al;   /* entry k: k-th call; obj = 1st arg, a = number/0, c = result, p = string/2nd pointer, q = 3rd pointer */
+long long g_pn_val[2]; int g_pn_ret[2];
+int cl_parse_number(const char *str, int64_t *result)
+__CPROVER_requires(str != NULL && (str == g_ja.name[0] || str == g_ja.name[1]))
+__CPROVER_assigns(*result)
+__CPROVER_ensures(RV == (str == g_ja.name[0] ? g_pn_ret[0] : g_pn_ret[1]))
+__CPROVER_ensures(RV != 0 || *result == (str == g_ja.name[0] ? g_pn_val[0] : g_pn_val[1]))
+;
+#define AL_KEEP0 (g_al.c[0].obj == OLD(g_al.c[0].obj) && g_al.c[0].a == OLD(g_al.c[0].a) && g_al.c[0].c == OLD(g_al.c[0].c) && \
+	g_al.c[0].p == OLD(g_al.c[0].p) && g_al.c[0].q == OLD(g_al.c[0].q))
+int cl_add_label(struct mark_type *t, int64_t value, const char *label)
+__CPROVER_requires(g_al.n < 2)
+__CPROVER_assigns(g_al)
+__CPROVER_ensures(g_al.n == OLD(g_al.n) + 1 && (RV == 0 || RV == -1))
+__CPROVER_ensures(OLD(g_al.n) != 0 || (g_al.c[0].obj == (void *) t && g_al.c[0].a == value && g_al.c[0].c == RV && g_al.c[0].p == (void *) label))
+__CPROVER_ensures(OLD(g_al.n) != 1 || (g_al.c[1].obj == (void *) t && g_al.c[1].a == value && g_al.c[1].c == RV && g_al.c[1].p == (void *) label && AL_KEEP0))
+;
+int cl_parse_mark(struct ovni_mark_emu *m, const char *typestr, JSON_Value *markval)
+__CPROVER_requires(g_al.n < 2)
+__CPROVER_assigns(g_al)
+__CPROVER_ensures(g_al.n == OLD(g_al.n) + 1 && (RV == 0 || RV == -1))
+__CPROVER_ensures(OLD(g_al.n) != 0 || (g_al.c[0].obj == (void *) m && g_al.c[0].c == RV && g_al.c[0].p == (void *) typestr && g_al.c[0].q == (void *) markval))
+__CPROVER_ensures(OLD(g_al.n) != 1 || (g_al.c[1].obj == (void *) m && g_al.c[1].c == RV && g_al.c[1].p == (void *) typestr && g_al.c[1].q == (void *) markval && AL_KEEP0))
+;
+
+/* parse_labels: every (value, label) entry is handed to add_label, in order, with the number
+ * parse_number read from the entry's name; accepted iff every entry is well-formed and
+ * accepted by add_label; stops at the first refusal */
+int g_ok0, g_ok1; long w_n;
+WITNESS(parse_labels);
+#define JA_WF (g_ja.n <= 2 && (g_ja.val[0] == NULL || g_ja.val[1] == NULL || g_ja.val[0] != g_ja.val[1] || g_ja.n < 2))
+int c_parse_labels(struct mark_type *t, JSON_Object *labels)
+__CPROVER_requires(labels == g_ja.obj && JA_WF && g_al.n == 0 && g_j_bad == 0 && DIAG_PRE)
+__CPROVER_requires(g_ja.n < 2 || g_ja.name[0] == NULL || g_ja.name[1] == NULL || g_ja.name[0] != g_ja.name[1])
+__CPROVER_requires(g_ok0 == (g_ja.name[0] != NULL && g_pn_ret[0] == 0 && g_ja.val[0] != NULL && g_ja.str[0] != NULL))
+__CPROVER_requires(g_ok1 == (g_ja.name[1] != NULL && g_pn_ret[1] == 0 && g_ja.val[1] != NULL && g_ja.str[1] != NULL))
+__CPROVER_requires(WBIND(parse_labels, w_n == (long) g_ja.n))
+__CPROVER_assigns(g_al, g_j_bad, DIAG_FRAME)
+__CPROVER_ensures(RV == 0 || RV == -1)
+__CPROVER_ensures((RV == 0) == (g_ja.n == 0 || (g_ok0 && g_al.c[0].c == 0 && (g_ja.n == 1 || (g_ok1 && g_al.c[1].c == 0)))))
+__CPROVER_ensures(g_al.n == ((g_ja.n >= 1 && g_ok0) ? ((g_ja.n == 2 && g_al.c[0].c == 0 && g_ok1) ? 2u : 1u) : 0u))
+__CPROVER_ensures(g_al.n < 1 || (g_al.c[0].obj == (void *) t && g_al.c[0].a == g_pn_val[0] && g_al.c[0].p == (void *) g_ja.str[0]))
+__CPROVER_ensures(g_al.n < 2 || (g_al.c[1].obj == (void *) t && g_al.c[1].a == g_pn_val[1] && g_al.c[1].p == (void *) g_ja.str[1]))
+__CPROVER_ensures(g_j_bad == 0 && (RV == 0 || g_err > OLD(g_err)))
+;
+void h_parse_labels(void)
+{
+	struct mark_type *t; JSON_Object *labels;
+	WITNESS_ON(parse_labels);
+	int r = parse_labels(t, labels);
+	if (r == 0 && w_n == 0) REACH("empty labels object accepted");
+	if (r == 0 && w_n == 2) REACH("two labels accepted");
+	if (r != 0 && w_n == 2 && g_al.n == 2) REACH("second label refused by add_label");
+	if (r != 0 && w_n == 1 && g_al.n == 0) REACH("malformed entry refused");
+}
+
+/* scan_thread: no "ovni.mark" object -> nothing to do; otherwise every entry is handed to
+ * parse_mark with its name as the type string; accepted iff all of them are */
+int w_nomarks;
+WITNESS(scan_thread);
+int c_scan_thread(struct ovni_mark_emu *memu, struct thread *t)
+__CPROVER_requires(__CPROVER_is_fresh(t, sizeof(*t)) && t == g_js_thread && g_js_obj == g_ja.obj && JA_WF && g_al.n == 0 && g_j_bad == 0 && DIAG_PRE)
+__CPROVER_requires(g_ok0 == (g_ja.name[0] != NULL && g_ja.val[0] != NULL))
+__CPROVER_requires(g_ok1 == (g_ja.name[1] != NULL && g_ja.val[1] != NULL))
+__CPROVER_requires(WBIND(scan_thread, w_n == (long) g_ja.n && w_nomarks == (g_js_obj == NULL)))
+__CPROVER_assigns(g_al, g_j_bad, DIAG_FRAME)
+__CPROVER_ensures(RV == 0 || RV == -1)
+__CPROVER_ensures(g_js_obj != NULL || (RV == 0 && g_al.n == 0))
+__CPROVER_ensures(g_js_obj == NULL || (RV == 0) == (g_ja.n == 0 || (g_ok0 && g_al.c[0].c == 0 && (g_ja.n == 1 || (g_ok1 && g_al.c[1].c == 0)))))
+__CPROVER_ensures(g_js_obj == NULL || g_al.n == ((g_ja.n >= 1 && g_ok0) ? ((g_ja.n == 2 && g_al.c[0].c == 0 && g_ok1) ? 2u : 1u) : 0u))
+__CPROVER_ensures(g_al.n < 1 || (g_al.c[0].obj == (void *) memu && g_al.c[0].p == (void *) g_ja.name[0] && g_al.c[0].q == (void *) g_ja.val[0]))
+__CPROVER_ensures(g_al.n < 2 || (g_al.c[1].obj == (void *) memu && g_al.c[1].p == (void *) g_ja.name[1] && g_al.c[1].q == (void *) g_ja.val[1]))
+__CPROVER_ensures(g_j_bad == 0 && (RV == 0 || g_err > OLD(g_err)))
+;
+void h_scan_thread(void)
+{
+	struct ovni_mark_emu *memu; struct thread *t;
+	WITNESS_ON(scan_thread);
+	int r = scan_thread(memu, t);
+	if (r == 0 && w_nomarks) REACH("thread without marks accepted");
+	if (r == 0 && !w_nomarks && w_n == 2) REACH("two mark definitions accepted");
+	if (r != 0 && w_n == 2 && g_al.n == 2) REACH("second definition refused by parse_mark");
+	if (r != 0 && w_n == 1 && g_al.n == 0) REACH("malformed entry refused");
 }
